@@ -186,7 +186,7 @@ func TestVerifDriverC08(t *testing.T) {
 				go func() { s.wg.Wait(); close(done) }()
 				select {
 				case <-done:
-				case <-time.After(200 * time.Millisecond):
+				case <-time.After(5 * time.Second):
 					fail("%s: the reporting goroutine is still running after Close returned", label)
 				}
 				rep.mu.Lock()
